@@ -287,7 +287,9 @@ def g_mixed(rng):
                 out += hdr + arr + run
         else:
             out.append(g_scalar(rng, rng.choice("ihcTNsf")))
-    return [v for v in out if "2e2e2e" not in v]
+    # (a string holding "..." is replaced, not dropped: dropping an array element left the array header
+    # with a count larger than the array - an ill-formed list whose printed text the checker rejects)
+    return [("s:6162" if "2e2e2e" in v else v) for v in out]
 
 def gen_struct(rng, tier, dist, n):
     """lists with runs around the compression threshold, arrays, time tags, whole messages"""
